@@ -3,6 +3,8 @@ package main
 import (
 	"fmt"
 	"go/types"
+
+	"golang.org/x/tools/go/ssa"
 	"strings"
 )
 
@@ -89,6 +91,14 @@ func (c *evalCtx) call(e *Expr) (tval, error) {
 			return tval{}, err
 		}
 		if x.t.Sort != SIface {
+			// a value of concrete static type (an implementation verified against its interface's contract, where the
+			// receiver is written typeis(recv, *T)): decided statically
+			if x.ty != nil {
+				if types.Identical(x.ty, ty) {
+					return tval{t: True, ty: tBool}, nil
+				}
+				return tval{t: False, ty: tBool}, nil
+			}
 			return tval{}, fmt.Errorf("typeis on non-interface")
 		}
 		return tval{t: Eq(ITag(x.t), IntLit(int64(w.tag(ty)))), ty: tBool}, nil
@@ -300,6 +310,59 @@ func (c *evalCtx) call(e *Expr) (tval, error) {
 			return tval{}, fmt.Errorf("in spec %s: %v", e.Name, err)
 		}
 		return r, nil
+	}
+	// libfn("pkg/path.Func", args...): the value the engine gives to a call of a deterministic library function with
+	// these argument values (the same uninterpreted function symbol as in deterministicLibResults)
+	if e.Name == "libfn" && len(e.Args) >= 1 && e.Args[0].Op == "str" {
+		fname := e.Args[0].Name
+		var fn *ssa.Function
+		for _, pk := range u.w.sh.ld.Prog.AllPackages() {
+			if pk.Pkg != nil && strings.HasPrefix(fname, pk.Pkg.Path()+".") {
+				if f := pk.Func(fname[len(pk.Pkg.Path())+1:]); f != nil {
+					fn = f
+				}
+			}
+		}
+		if fn == nil {
+			return tval{}, fmt.Errorf("libfn: unknown function %q", fname)
+		}
+		if !deterministicLibPkgs[fnPkgPath(fn)] && !deterministicLibFuncs[fn.String()] {
+			return tval{}, fmt.Errorf("libfn: %s is not modelled as deterministic", fname)
+		}
+		sig := fn.Signature
+		var ts []Term
+		var sorts, dyn []string
+		for i, a := range e.Args[1:] {
+			v, err := c.eval(a)
+			if err != nil {
+				return tval{}, err
+			}
+			t := v.t
+			if !valueSort(t.Sort) {
+				return tval{}, fmt.Errorf("libfn: argument %d is not a value", i)
+			}
+			ts = append(ts, t)
+			sorts = append(sorts, string(t.Sort))
+			if sig.Variadic() && i >= sig.Params().Len()-1 {
+				ty := v.ty
+				if ty == nil {
+					ty = tStr
+				}
+				dyn = append(dyn, dynTypeTag(ty))
+			}
+		}
+		sg := strings.Join(sorts, ",")
+		if len(dyn) > 0 {
+			sg += ";" + strings.Join(dyn, ",")
+		}
+		rty := sig.Results().At(0).Type()
+		rs := u.w.sortOf(rty)
+		name := libFnSymbol(fn.String(), sg, 0)
+		u.declareFun(name, sorts, rs)
+		if len(ts) == 0 {
+			return tval{t: Term{name, rs}, ty: rty}, nil
+		}
+		return tval{t: mk(rs, name, ts...), ty: rty}, nil
 	}
 	// uninterpreted functions: uf_NAME(args...) with result sort by suffix convention: name ending in "?" is bool
 	if strings.HasPrefix(e.Name, "uf_") || strings.HasPrefix(e.Name, "ufb_") || strings.HasPrefix(e.Name, "ufs_") {
